@@ -812,6 +812,10 @@ func c02Attributed(cs []c02Contrib, labels []uint64) []c02Contrib {
 	return out
 }
 
+// deltas (modulo 2^64) by which views are relabelled next to the small ones: a view encoding that drops
+// or folds high bits makes a signature valid for views nobody signed
+var c02ViewDeltas = []uint64{1 << 32, 1<<64 - 1<<32, 1<<32 + 1, 1 << 33, 1 << 48, 1 << 63, 1<<64 - 1}
+
 func c02Distinct(l []uint64) int {
 	m := map[uint64]bool{}
 	for _, x := range l {
